@@ -16,6 +16,20 @@ def build():
     out.append(coq_strs("SAFE_REDIRECT_TARGETS",
                         const_strs(module_assign(an, "SAFE_REDIRECT_TARGETS"), "SAFE_REDIRECT_TARGETS"),
                         "core/analyzer.py SAFE_REDIRECT_TARGETS"))
+    out.append(coq_strs("EXECUTION_ENV_VARS",
+                        const_strs(module_assign(allow, "EXECUTION_ENV_VARS"), "EXECUTION_ENV_VARS"),
+                        "core/allowlists.py EXECUTION_ENV_VARS: variables that decide what runs"))
+    out.append(coq_strs("SYSTEM_PATH_DIRS",
+                        const_strs(module_assign(allow, "SYSTEM_PATH_DIRS"), "SYSTEM_PATH_DIRS"),
+                        "core/allowlists.py SYSTEM_PATH_DIRS: directories a PATH may list"))
+    sev = func(allow, "sets_execution_var")
+    lits = sorted({c.value for c in ast.walk(sev) if isinstance(c, ast.Constant) and isinstance(c.value, str) and len(c.value) < 8})
+    if lits != [":", "=", "PATH"]:
+        raise TieBroken(f"sets_execution_var: expected the literals ':', '=', 'PATH' (found {lits})")
+    rx = module_assign(allow, "_ASSIGNED_NAME")
+    if not (isinstance(rx, ast.Call) and rx.args and isinstance(rx.args[0], ast.Constant)
+            and rx.args[0].value == r"([A-Za-z_][A-Za-z0-9_]*)(\+?=)(.*)"):
+        raise TieBroken("_ASSIGNED_NAME: the regular expression changed")
     unk = module_assign(an, "_UNKNOWN_CWD")
     if not (isinstance(unk, ast.Call) and getattr(unk.func, "id", None) == "Path" and len(unk.args) == 1):
         raise TieBroken("_UNKNOWN_CWD: expected Path(<string expression>)")
